@@ -26,7 +26,7 @@ def rd(p):
 
 def pem2der(pem):
     """first PEM block -> DER"""
-    m = re.search(rb'-----BEGIN [^-]+-----(.*?)-----END', pem, re.S)
+    m = re.search(rb'-----BEGIN [^-]*PRIVATE KEY-----(.*?)-----END', pem, re.S) or re.search(rb'-----BEGIN [^-]+-----(.*?)-----END', pem, re.S)
     body = b''.join(l for l in m.group(1).splitlines() if b':' not in l)
     return base64.b64decode(body)
 
